@@ -24,7 +24,7 @@ RULE = ("Hypothesis-generated topology programs (both flavours) in which fault c
         ">=2, or a compound call). Distinct by hash of the case.")
 ASSUMPTIONS = ["a call that does not raise is not a fault: nothing is asserted about it here",
                "exception classes are not compared"]
-BUDGET = {"quick": 1200, "thorough": 30000}
+BUDGET = {"quick": 1200, "thorough": 12000}
 MIN_LABEL_FRACTION = {"nontrivial": 0.3, "has-raising-call": 0.8, "substrate": 0.12}
 
 
@@ -179,10 +179,11 @@ def _fault_op(flavour):
 @st.composite
 def _case(draw, tier):
     flavour = draw(st.sampled_from(["experiment", "experiment", "substrate"]))
-    build = topo.any_op(flavour, removals=True, weights={"validate": 0, "serialize_load": 0, "prune": 0, "rename": 1,
+    build = topo.any_op(flavour, removals=True, names=topo.name_fresh_or_long, weights={"validate": 0, "serialize_load": 0, "prune": 0, "rename": 1,
                                                          "remove_service": 4, "remove_node": 3, "remove_component": 2,
                                                          "add_service": 10})
-    pre = draw(topo.program(flavour, max_ops=6, min_ops=2, removals=False, weights={"validate": 0, "serialize_load": 0, "prune": 0}))
+    pre = draw(topo.program(flavour, max_ops=6, min_ops=2, removals=False, names=topo.name_fresh_or_long,
+                            weights={"validate": 0, "serialize_load": 0, "prune": 0}))
     n = draw(st.integers(6, 40 if tier == "thorough" else 24))
     ops = []
     for _ in range(n):
